@@ -219,6 +219,10 @@ def _valid_tokens():
                                     ("A128GCMKW", "A128GCM", "oct16", {}), ("PBES2-HS256+A128KW", "A128GCM", "oct32", {"p2c": 10}),
                                     ("dir", "A128GCM", "oct16", {"zip": "DEF"}), ("ECDH-ES", "XC20P", "X448", {})]:
             out.append(("jwe", jwe.encrypt_compact({"alg": alg, "enc": enc, **extra}, b'{"a":1}', K[kn], algorithms=jweplan.ALL_NAMES)))
+        # RFC 7797 unencoded payloads: the compact path of joserfc.rfc7797 has its own verification code
+        from joserfc import rfc7797
+        for alg, kn in [("HS256", "oct32"), ("ES256", "P-256"), ("RS256", "RSA"), ("EdDSA", "Ed448")]:
+            out.append(("jws", rfc7797.serialize_compact({"alg": alg, "kid": kn, "b64": False, "crit": ["b64"]}, "a1-b_c~", K[kn], algorithms=ALL_JWS)))
     return out
 
 
@@ -236,7 +240,7 @@ def valid_tokens():
 
 @st.composite
 def g3_mutated(draw):
-    idx = draw(st.integers(0, 14))
+    idx = draw(st.integers(0, 18))
     edit = draw(st.sampled_from(["set", "set", "set", "alg-swap", "alg-swap", "segment", "drop", "header-nonobject", "nested-set", "nested-set"]))
     name = draw(st.sampled_from(sorted(member_value) + ["alg", "enc", "alg", "epk", "zip", "p2c", "crit"]))
     value = draw(st.one_of(member_value[name], member_value[name], anyv))
